@@ -367,7 +367,7 @@ def t_cases(rec, seed, tier):
 def t_missing(rec, seed, tier):
     from hypothesis import strategies as st
 
-    n = {"quick": 60, "thorough": 600}[tier]
+    n = {"quick": 200, "thorough": 600}[tier]
     cases = st.fixed_dictionaries({"spec": _specs(), "password": st.sampled_from(["pw", "x" * 100, "pässword"]),
                                    "reconf": st.sampled_from([None, "load-replace", "load-other", "update-schemes", "load-string", "update-default"])})
 
@@ -436,7 +436,7 @@ def make_machine(rec):
 
 
 def t_machine(rec, seed, tier, shard):
-    n, steps = {"quick": (50, 12), "thorough": (400, 30)}[tier]
+    n, steps = {"quick": (120, 14), "thorough": (400, 30)}[tier]
     hyp_machine(rec, make_machine(rec), n, steps, seed + shard, shrink_budget=15)
 
 
